@@ -8,6 +8,8 @@ import (
 	"os/exec"
 	"strings"
 	"sync"
+	"sync/atomic"
+	"time"
 
 	"github.com/AsaiYusuke/jsonpath"
 )
@@ -292,6 +294,93 @@ func runConc(c *caseT) string {
 		fmt.Fprintf(&b, "\tCONC=ok:%d", threads*rounds*len(fns)*len(docs))
 	}
 	return b.String()
+}
+
+// runParked: far more callers in flight at once than there are processors.  Every goroutine calls a shared parsed function
+// whose user function `park` blocks until ALL the goroutines have arrived in it (or a time limit passes), so c.Threads
+// retrievals are in progress inside the library at the same moment — each holding whatever the library hands out per call.
+// The library sets no limit on concurrent callers: every call must return what the sequential call returns.
+func runParked(c *caseT) string {
+	n := c.Threads
+	var parking, arrived int32
+	release := make(chan struct{})
+	var once sync.Once
+	park := func(v interface{}) (interface{}, error) {
+		if atomic.LoadInt32(&parking) == 1 {
+			if atomic.AddInt32(&arrived, 1) >= int32(n) {
+				once.Do(func() { close(release) })
+			}
+			select {
+			case <-release:
+			case <-time.After(8 * time.Second):
+			}
+		}
+		return v, nil
+	}
+	type shared struct {
+		f   fn
+		obs string
+	}
+	var fns []shared
+	var docs []interface{}
+	for _, op := range c.Ops {
+		switch op.Op {
+		case "parse":
+			cfg := makeConfig(op.Filters, op.Aggs, op.Acc, nil)
+			cfg.SetFilterFunction("park", park)
+			f, obs, _ := parseObs(unhex(op.Path), &cfg)
+			fns = append(fns, shared{f, obs})
+		case "doc":
+			docs = append(docs, buildDoc(op.Doc))
+		}
+	}
+	want := make([][]string, len(fns))
+	for i, s := range fns {
+		want[i] = make([]string, len(docs))
+		for j, d := range docs {
+			if s.f == nil {
+				want[i][j] = s.obs
+				continue
+			}
+			_, want[i][j] = evalObs(s.f, d)
+		}
+	}
+	atomic.StoreInt32(&parking, 1)
+	var mu sync.Mutex
+	var diffs []string
+	var finished int32
+	done := make(chan struct{})
+	var wg sync.WaitGroup
+	for t := 0; t < n; t++ {
+		wg.Add(1)
+		go func(t int) {
+			defer wg.Done()
+			i, j := t%len(fns), (t/len(fns))%len(docs)
+			if fns[i].f != nil {
+				_, got := evalObs(fns[i].f, docs[j])
+				if got != want[i][j] {
+					mu.Lock()
+					diffs = append(diffs, fmt.Sprintf("f%d/d%d:%s", i, j, got))
+					mu.Unlock()
+				}
+			}
+			atomic.AddInt32(&finished, 1)
+		}(t)
+	}
+	go func() { wg.Wait(); close(done) }()
+	select {
+	case <-done:
+	case <-time.After(40 * time.Second):
+		return fmt.Sprintf("%s\tPARKED=stuck:%d-of-%d-returned", c.ID, atomic.LoadInt32(&finished), n)
+	}
+	atomic.StoreInt32(&parking, 0)
+	if len(diffs) > 0 {
+		if len(diffs) > 5 {
+			diffs = diffs[:5]
+		}
+		return c.ID + "\tDIFF=" + strings.Join(diffs, ";")
+	}
+	return fmt.Sprintf("%s\tPARKED=ok:%d", c.ID, n)
 }
 
 // runCold starts a brand-new process whose very first library calls are made concurrently by several goroutines
